@@ -1,6 +1,64 @@
 //! C01-C04: verdict-conditional oracles over the shared input/configuration sweep.
 use super::sweep::*;
+use crate::problem::*;
+use crate::solve::*;
 use crate::util::*;
+use serde_json::{json, Value};
+
+/// C03, "Almost* only when the reduced tolerances are met": every iteration budget 0..=kmax (so that runs end
+/// MaxIterations and pass through the reduced-tolerance test) x reduced-tolerance profiles in which the paired
+/// tolerances differ x objective scales (gap_abs >> gap_rel), runs observed (kappa for the certificate tests)
+pub struct AlmostPaths {
+    pub src: Planted,
+    pub kmax: u32,
+}
+const OBJ_SCALES: [f64; 2] = [1.0, 1e3];
+impl AlmostPaths {
+    fn decode(&self, id: u64) -> (Prob, SettingsSpec) {
+        let mut d = Digits(id);
+        let k = d.take(self.kmax as u64 + 1) as u32;
+        let prof = d.take(6) as u8;
+        let sc = *d.pick(&OBJ_SCALES);
+        let (mut p, mut ss) = self.src.case_of(d.0);
+        ss.max_iter = k;
+        ss.reduced_profile = prof;
+        for v in p.q.iter_mut() {
+            *v *= sc;
+        }
+        for v in p.p.a.iter_mut() {
+            *v *= sc;
+        }
+        (p, ss)
+    }
+}
+impl Space for AlmostPaths {
+    fn name(&self) -> String {
+        format!("almost-paths-{}", self.src.name())
+    }
+    fn size(&self) -> u64 {
+        self.src.size() * (self.kmax as u64 + 1) * 6 * OBJ_SCALES.len() as u64
+    }
+    fn describe(&self, id: u64) -> Value {
+        let (p, ss) = self.decode(id);
+        json!({"problem": p.to_json(), "settings": ss.to_json()})
+    }
+    fn bound(&self) -> Value {
+        json!({"max_iter": format!("0..={}", self.kmax), "reduced_tolerance_profiles": 6, "objective_scales": OBJ_SCALES})
+    }
+    fn run(&self, id: u64, ctx: &mut Ctx) -> CaseResult {
+        let (p, ss) = self.decode(id);
+        let Ok(r) = run_solver(&p, &ss, true) else {
+            ctx.outcome("panic(skipped: judged by C04)");
+            return Ok(());
+        };
+        ctx.outcome(status_name(r.status));
+        ctx.transitions += r.iterations as u64 + 1;
+        if format!("{:?}", r.status).starts_with("Almost") {
+            ctx.nontrivial += 1;
+        }
+        judge_c03(&p, &ss, &r, BOUND)
+    }
+}
 
 pub const ASSUMPTIONS: &[&str] = &[
     "threshold comparisons allow a relative slack of 1e-6 plus an absolute rounding allowance of 1e-13 x (magnitude of the summed terms): the solver evaluates the same quantities on equilibrated data",
@@ -23,6 +81,17 @@ pub fn spaces_c03(tier: &str, _seed: u64) -> Vec<Box<dyn Space>> {
     for base in 0..2 {
         for depth in 1..=maxd {
             v.push(Box::new(super::c08::Hist { depth, base, equil: true, presolve_active: false }));
+        }
+    }
+    {
+        use ConeSpec::*;
+        let lists: Vec<(Vec<ConeSpec>, usize)> = vec![(vec![NN(3), SOC(3)], 3), (vec![Zero(1), NN(2), Exp], 3), (vec![SOC(5), NN(1)], 3), (vec![PSD(2), NN(2)], 2)];
+        for (li, (l, n)) in lists.into_iter().enumerate() {
+            if tier != "thorough" && li == 3 {
+                continue; // PSD trajectories are slow on the plain-Rust LAPACK shims
+            }
+            let xids: Vec<u64> = if tier == "thorough" { vec![0, 5, 13] } else { vec![5] };
+            v.push(Box::new(AlmostPaths { src: Planted::new(l, n, SettingsSpec::lattice(0), Judge::C03, 1, xids, "default"), kmax: if tier == "thorough" { 25 } else { 12 } }));
         }
     }
     // terminal statuses that need an injected fault (NumericalError, roll-backs, strategy switches)
